@@ -143,6 +143,42 @@ def disjoint_union(draw, part, k_min=3, k_max=4, isolated=1):
     return B
 
 
+@st.composite
+def chordal_undirected(draw, max_edges=14):
+    """An undirected chordal graph built as a chain of cliques (sizes 2..4), consecutive cliques sharing a node or joined
+    through a bridge node adjacent to one node of each; labels scrambled.  Every such graph has a consistent extension
+    (a perfect elimination ordering), but its simplicial nodes need not be the nodes of smallest degree."""
+    cliques = []
+    edges = set()
+    n = 0
+    prev_anchor = None
+    for _ in range(draw(st.integers(2, 3))):
+        size = draw(st.integers(2, 4))
+        how = draw(st.sampled_from(["share", "bridge", "bridge"])) if prev_anchor is not None else "new"
+        if how == "share":
+            nodes = [prev_anchor] + list(range(n, n + size - 1))
+            n += size - 1
+        else:
+            nodes = list(range(n, n + size))
+            n += size
+            if how == "bridge":
+                b = n
+                n += 1
+                edges.add((min(prev_anchor, b), max(prev_anchor, b)))
+                edges.add((min(nodes[0], b), max(nodes[0], b)))
+        for i in nodes:
+            for j in nodes:
+                if i < j:
+                    edges.add((i, j))
+        prev_anchor = nodes[-1]
+    edges = sorted(edges)[:max_edges] if len(edges) > max_edges else sorted(edges)
+    lab = list(draw(st.permutations(list(range(n)))))
+    B = [[0] * n for _ in range(n)]
+    for (i, j) in edges:
+        B[lab[i]][lab[j]] = B[lab[j]][lab[i]] = 1
+    return B
+
+
 def index_presentation(idx):
     """How an index list is handed to the library: the case stores (kind, list)."""
     kinds = ["list", "tuple", "array"]
